@@ -27,6 +27,28 @@ func (fr *frame) loopTouched(li *loopInfo) (names map[string]bool, all bool) {
 			if libPure[key] {
 				return
 			}
+			// no contract on the interface: the union over the implementations (as ifaceDispatch does)
+			if iface, ok := c.Value.Type().Underlying().(*types.Interface); ok {
+				n := 0
+				for k, f := range fc.e.funcs {
+					if f.Name() != c.Method.Name() || f.Signature.Recv() == nil || f.Pkg == nil || f.Synthetic != "" {
+						continue
+					}
+					if !strings.HasPrefix(f.Pkg.Pkg.Path(), "github.com/google/badwolf") || !types.Implements(f.Signature.Recv().Type(), iface) {
+						continue
+					}
+					ct := fc.e.specs.Funcs[k]
+					if ct == nil {
+						all = true
+						return
+					}
+					fr.contractTouches(ct, names, &all)
+					n++
+				}
+				if n > 0 {
+					return
+				}
+			}
 			all = true
 			return
 		}
